@@ -1,6 +1,9 @@
 """C09 -- xterm driver output has exactly the requested effect on a VT-conformant screen
 (src/termdriver-xterm.c goto_abs / move_rel / print / erasech / clear / scrollrect)."""
+import atexit
+import os
 import random
+import subprocess
 
 ID = "C09"
 ML = "mC09"
@@ -34,6 +37,7 @@ TRUSTED = [
 ]
 
 FINDING_RV_EDGE = "C09-erasech-rv-right-edge"
+VERIF = os.path.dirname(os.path.dirname(os.path.dirname(os.path.abspath(__file__))))
 
 SIZES = [(1, 1), (1, 4), (2, 2), (3, 5), (5, 10), (4, 7), (6, 3), (5, 1), (24, 80), (3, 140)]
 
@@ -257,9 +261,31 @@ def triggers_rv_edge(case):
     return False
 
 
+_co = None
+
+
+def _excl_oracle(case, obs):
+    """the extracted oracle with the trigger class of the finding treated as out of range"""
+    global _co
+    exe = os.path.join(VERIF, "build", ID, "drv")
+    if _co is None or _co.poll() is not None:
+        _co = subprocess.Popen([exe, "oracle-excl"], stdin=subprocess.PIPE, stdout=subprocess.PIPE)
+        atexit.register(lambda: _co and _co.poll() is None and _co.kill())
+    _co.stdin.write(("%s | %s\n" % (case, obs)).encode())
+    _co.stdin.flush()
+    return _co.stdout.readline().decode().strip()
+
+
 def explain(case, obs, findings):
-    if triggers_rv_edge(case):
-        return FINDING_RV_EDGE
+    """attributed to the finding iff the case contains a request of the trigger class AND the extracted
+    oracle finds nothing wrong up to that request"""
+    if not triggers_rv_edge(case):
+        return None
+    try:
+        if _excl_oracle(case, obs).startswith("OK"):
+            return FINDING_RV_EDGE
+    except Exception:
+        return None
     return None
 
 
